@@ -327,6 +327,26 @@ impl Engine for C19 {
             }
             let a = Model::addr_of(&ctx, addr);
             model.adopt_content(&ctx, &a);
+            // a checked copy of the entry ONTO the changed file itself (which is what the content
+            // path resolves to): it fails verification and leaves the file as the user changed it
+            // (not when the address held regular content before the link: then the entry is that content)
+            if matches!(c.post, Post::Modify | Post::ModifyKeepMtime | Post::Truncate) && c.link.key.is_some() && !c.preexisting && matches!(model.content.get(&a), Some(crate::model::CState::Data { symlink: true, .. })) {
+                let changed = std::fs::read(&target).map_err(|e| format!("INFRA: {e}"))?;
+                for fl in [Fl::Sync, Fl::Async] {
+                    let r: Result<u64, String> = if fl == Fl::Sync {
+                        cacache::copy_sync(&ctx.cache, ctx.key(0), &target).map_err(|e| e.to_string())
+                    } else {
+                        crate::rt::block_on(cacache::copy(&ctx.cache, ctx.key(0), &target)).map_err(|e| e.to_string())
+                    };
+                    st.eval(1);
+                    if let Ok(n) = r {
+                        return Err(format!("{what}: after the target was changed ({:?}), a checked copy ({fl:?}) of the entry onto that very file reports success ({n} bytes)", c.post));
+                    }
+                    if std::fs::read(&target).map(|b| b != changed).unwrap_or(true) {
+                        return Err(format!("{what}: after the target was changed ({:?}), a failed checked copy ({fl:?}) onto that very file altered it", c.post));
+                    }
+                }
+            }
             basic::sweep_keys(&ctx, &mut model, st, true, 1).map_err(|e| format!("{what}: after the target was changed ({:?}): {e}", c.post))?;
             basic::sweep_addrs(&ctx, &mut model, st, &addrs, 1).map_err(|e| format!("{what}: after the target was changed ({:?}): {e}", c.post))?;
         }
